@@ -283,6 +283,8 @@ pub fn leaves() -> Vec<Leaf> {
         gleaf("def_noret", Stmt::Def { name: s("v29"), params: vec![], ret: None, body: vec![gc(vec![], "h", None, vec![opd("r")]), Stmt::Return(None)] }),
         leaf("pragma", Stmt::Pragma(s("pragma verif one two"))),
         leaf("pragma_hash", Stmt::Pragma(s("#pragma verif"))),
+        leaf("pragma_trailing", Stmt::Pragma(s("pragma verif trailing  \t"))),
+        leaf("pragma_inner", Stmt::Pragma(s("pragma   two  words\t."))),
     ]
 }
 
